@@ -62,7 +62,8 @@ def classify_cut(k: int, frames: list, data: bytes) -> str:
     return "other"
 
 
-SOURCES = ["bytesio", "raw-nonseekable", "raw-nonseekable-1", "buffered-nonseekable", "buffered-nonseekable-dribble", "file-on-disk"]
+SOURCES = ["bytesio", "raw-nonseekable", "raw-nonseekable-1", "buffered-nonseekable", "buffered-nonseekable-dribble", "file-on-disk",
+           "bytesio-after-preamble", "file-after-preamble"]
 _TMP: list = []
 
 
@@ -96,6 +97,20 @@ def cut_source(src: str, prefix: bytes):
         with open(path, "wb") as f:
             f.write(prefix)
         return open(path, "rb")
+    if src == "bytesio-after-preamble":
+        # the cut stream sits behind a container preamble in a seekable object the caller has already positioned
+        pre = b"\x0a\x03abc-container-preamble\x00"
+        f = io.BytesIO(pre + prefix)
+        f.seek(len(pre))
+        return f
+    if src == "file-after-preamble":
+        pre = b"\x00\x00\x0acontainer"
+        path = _tmpfile()
+        with open(path, "wb") as f:
+            f.write(pre + prefix)
+        f = open(path, "rb")
+        f.seek(len(pre))
+        return f
     if src == "buffered-nonseekable-dribble":
         return io.BufferedReader(sources.SpinGuardRaw(prefix, [2, 5]))
     raise ValueError(src)
